@@ -187,6 +187,10 @@ func (column *ColumnData) readData(reader io.Reader, format base.BoundValueForma
 		column.data = nil
 		return nil
 	}
+	// the declared length comes from the other side: do not reserve more than the message still holds
+	if sized, ok := reader.(interface{ Len() int }); ok && length > sized.Len() {
+		return ErrPacketTruncated
+	}
 	data := make([]byte, length)
 
 	// first 4 bytes is packet length and then 2 bytes of column count
